@@ -226,6 +226,16 @@ func (w *World) ResolveAddr(s string) (common.Address, bool) {
 			return common.Address{}, false
 		}
 		return of[idx%len(of)], true
+	case strings.HasPrefix(s, "cr:"):
+		// cr:<wallet>:<k> = the CREATE address of that wallet at its current nonce + k
+		parts := strings.Split(s, ":")
+		wi, _ := strconv.Atoi(parts[1])
+		k := 0
+		if len(parts) > 2 {
+			k, _ = strconv.Atoi(parts[2])
+		}
+		wl := w.wallet(wi)
+		return ethcrypto.CreateAddress(wl.Addr, w.nextNonce(wi, wl)+uint64(k)), true
 	case strings.HasPrefix(s, "fresh"):
 		i, _ := strconv.Atoi(s[5:])
 		return NewWallet("fresh", i).Addr, true
